@@ -8,6 +8,16 @@
 //!   `curves` (oracle only) paths with quadratic / cubic segments through both entry points
 //!   `stall`  (oracle only, 9 fixed cases) the row loop at magnitudes where `y + offset == y`
 //!
+//! History of the Hatcher object: about half of the `hatch` / `dots` / `curves` cases run their call
+//! on a `Hatcher` that has served earlier calls (`HIST k <call>*` behind the case's own arguments;
+//! drawn after all draws of the case's own input): 1-3 calls through either entry point on other
+//! paths (polygonal, curved, without edges), other angles / uv origins / tangent flags / patterns,
+//! half of them ended early by their pattern (a regular pattern with a non-positive interval, or a
+//! table pattern with a non-positive offset at a random row 1..10), plus the fixed complete
+//! triangle call of the old `reused` cases.  IMPL = `hist k` + the trace of EVERY call in order
+//! (the model runs the same history on one object of `Model/Algo/HatchObj.lean`); the oracle below
+//! judges every call of the history with that call's own path / options / pattern.
+//!
 //! ORCL (always on the real implementation's output, independent f64 / lattice-exact reference):
 //!   * `…/no-panic`            empty path → no output, no panic        (class `empty-path-unwrap`)
 //!   * `hatch/offset-calls`    `next_offset` is asked for rows 0,1,2,… and nothing follows a
@@ -916,50 +926,282 @@ fn hatch_oracle(orc: &mut Oracle, fr: &Frame, items: &[HItem], offs: &Offsets, w
     }
 }
 
-fn run_hatch(evs: &[Ev], angle: f32, uv: Point, ct: bool, tol: f32, offs: &Offsets, reuse: bool) -> Option<Vec<HItem>> {
-    let pe = events_via_path(evs);
-    let items = RefCell::new(Vec::new());
-    let ok = {
-        let mut log = HLog::new(&items, offs);
-        let mut opt = HatchingOptions::DEFAULT.with_tolerance(tol).with_angle(Angle::radians(angle)).with_tangents(ct);
-        opt.uv_origin = uv;
-        let mut h = Hatcher::new();
-        if reuse {
-            // a hatcher that has been used before must behave like a fresh one
-            let mut p = Path::builder();
-            p.begin(point(1.0, 2.0));
-            p.line_to(point(9.0, 3.0));
-            p.line_to(point(4.0, 11.0));
-            p.end(true);
-            let sink = RefCell::new(Vec::new());
-            let o2 = Offsets { regular: true, tab: vec![], tail: 1.5 };
-            let mut l2 = HLog::new(&sink, &o2);
-            h.hatch_path(p.build().iter(), &HatchingOptions::DEFAULT.with_angle(Angle::radians(0.7)), &mut l2);
+// ---------------------------------------------------------------------------------------------
+// calls on one Hatcher object
+
+#[derive(Clone, Debug)]
+enum Pattern {
+    Hatch { ct: bool, offs: Offsets },
+    Dots { pat: DotPat },
+}
+
+/// one `hatch_path` / `dot_path` call: path, options, pattern
+#[derive(Clone, Debug)]
+struct Call {
+    evs: Vec<Ev>,
+    shape: &'static str,
+    lattice: bool,
+    curved: bool,
+    angle: f32,
+    uv: Point,
+    tol: f32,
+    pat: Pattern,
+    /// the pattern was made to return a non-positive offset at some row (history generator)
+    forced_stop: bool,
+}
+
+enum Items {
+    H(Vec<HItem>),
+    D(Vec<DItem>),
+}
+
+impl Call {
+    /// the record the model driver reads: `h angle uv ct <offsets> P …` / `H angle uv ct tol <offsets> P …`
+    /// / `d angle uv <pattern> P …` / `D angle uv tol <pattern> P …`
+    fn put(&self, args: &mut Out) {
+        match &self.pat {
+            Pattern::Hatch { ct, offs } => {
+                args.t(if self.curved { "H" } else { "h" }).f(self.angle).p(self.uv).b(*ct);
+                if self.curved {
+                    args.f(self.tol);
+                }
+                offs.put(args);
+            }
+            Pattern::Dots { pat } => {
+                args.t(if self.curved { "D" } else { "d" }).f(self.angle).p(self.uv);
+                if self.curved {
+                    args.f(self.tol);
+                }
+                pat.put(args);
+            }
         }
-        vh::guarded(move || h.hatch_path(pe, &opt, &mut log)).is_some()
-    };
-    if ok {
-        Some(items.into_inner())
-    } else {
-        None
+        put_events(args, &self.evs);
+    }
+
+    fn is_dots(&self) -> bool {
+        matches!(self.pat, Pattern::Dots { .. })
+    }
+
+    /// the call on `h` (a new Hatcher, or one that has served earlier calls); `None` = panic
+    fn run(&self, h: &mut Hatcher) -> Option<Items> {
+        let pe = events_via_path(&self.evs);
+        match &self.pat {
+            Pattern::Hatch { ct, offs } => {
+                let items = RefCell::new(Vec::new());
+                let ok = {
+                    let mut log = HLog::new(&items, offs);
+                    let mut opt = HatchingOptions::DEFAULT.with_tolerance(self.tol).with_angle(Angle::radians(self.angle)).with_tangents(*ct);
+                    opt.uv_origin = self.uv;
+                    vh::guarded(|| h.hatch_path(pe, &opt, &mut log)).is_some()
+                };
+                if ok {
+                    Some(Items::H(items.into_inner()))
+                } else {
+                    None
+                }
+            }
+            Pattern::Dots { pat } => {
+                let items = RefCell::new(Vec::new());
+                let ok = {
+                    let mut log = DLog::new(&items, pat);
+                    let mut opt = DotOptions::DEFAULT.with_tolerance(self.tol).with_angle(Angle::radians(self.angle));
+                    opt.uv_origin = self.uv;
+                    vh::guarded(|| h.dot_path(pe, &opt, &mut log)).is_some()
+                };
+                if ok {
+                    Some(Items::D(items.into_inner()))
+                } else {
+                    None
+                }
+            }
+        }
+    }
+
+    /// IMPL tokens + the property's oracle for this call's output (the same clauses whether the
+    /// Hatcher was new or used: the property speaks about every call)
+    fn report(&self, o: &mut Out, orc: &mut Oracle, res: &Option<Items>) {
+        let site = if self.is_dots() { "dot_path" } else { "hatch_path" };
+        match (res, &self.pat) {
+            (None, _) => {
+                o.t("panic");
+                empty_check(orc, site, &self.evs, true, 0);
+            }
+            (Some(Items::H(items)), Pattern::Hatch { offs, .. }) => {
+                put_hatch_items(o, items);
+                empty_check(orc, site, &self.evs, false, items.len());
+                let asum: f64 = (0..8).map(|k| (offs.at(k) as f64).abs()).fold(0.0, f64::max);
+                let fr = frame(&self.evs, self.angle, self.uv, self.tol, asum);
+                let exact = self.lattice && self.angle == 0.0 && !self.curved;
+                hatch_oracle(orc, &fr, items, offs, well_formed(&self.evs), exact, "hatch");
+            }
+            (Some(Items::D(items)), Pattern::Dots { pat }) => {
+                put_dot_items(o, items);
+                empty_check(orc, site, &self.evs, false, items.len());
+                let rows_off = if pat.regular { Offsets { regular: true, tab: vec![], tail: pat.ri } } else { pat.rows.clone() };
+                let asum: f64 = (0..8).map(|k| (rows_off.at(k) as f64).abs()).fold(0.0, f64::max);
+                let fr = frame(&self.evs, self.angle, self.uv, self.tol, asum);
+                let rerun = || -> Vec<HS> {
+                    // the hatch segments the dots were derived from (same options, tangents off), new Hatcher
+                    run_hatch_fresh(&self.evs, self.angle, self.uv, false, self.tol, &rows_off)
+                        .unwrap_or_default()
+                        .into_iter()
+                        .filter_map(|it| if let HItem::Seg(s) = it { Some(s) } else { None })
+                        .collect()
+                };
+                dots_oracle(orc, &fr, items, pat, &rows_off, well_formed(&self.evs), &rerun);
+            }
+            _ => unreachable!(),
+        }
     }
 }
 
-fn run_dots(evs: &[Ev], angle: f32, uv: Point, tol: f32, pat: &DotPat) -> Option<Vec<DItem>> {
-    let pe = events_via_path(evs);
-    let items = RefCell::new(Vec::new());
-    let ok = {
-        let mut log = DLog::new(&items, pat);
-        let mut opt = DotOptions::DEFAULT.with_tolerance(tol).with_angle(Angle::radians(angle));
-        opt.uv_origin = uv;
-        let mut h = Hatcher::new();
-        vh::guarded(move || h.dot_path(pe, &opt, &mut log)).is_some()
-    };
-    if ok {
-        Some(items.into_inner())
-    } else {
-        None
+fn run_hatch_fresh(evs: &[Ev], angle: f32, uv: Point, ct: bool, tol: f32, offs: &Offsets) -> Option<Vec<HItem>> {
+    let c = Call { evs: evs.to_vec(), shape: "", lattice: false, curved: false, angle, uv, tol, pat: Pattern::Hatch { ct, offs: offs.clone() }, forced_stop: false };
+    match c.run(&mut Hatcher::new()) {
+        Some(Items::H(v)) => Some(v),
+        _ => None,
     }
+}
+
+/// the fixed earlier call of the `reused` cases: a triangle hatched completely at angle 0.7
+fn prelude_call() -> Call {
+    Call {
+        evs: vec![Ev::B(point(1.0, 2.0)), Ev::L(point(9.0, 3.0)), Ev::L(point(4.0, 11.0)), Ev::E],
+        shape: "prelude-triangle",
+        lattice: false,
+        curved: false,
+        angle: 0.7,
+        uv: point(0.0, 0.0),
+        tol: HatchingOptions::DEFAULT_TOLERANCE,
+        pat: Pattern::Hatch { ct: true, offs: Offsets { regular: true, tab: vec![], tail: 1.5 } },
+        forced_stop: false,
+    }
+}
+
+/// make the row pattern return a non-positive offset at some row ≥ 1 (the documented-by-code way
+/// for a pattern to end a hatching early): regular patterns get a non-positive interval, table
+/// patterns a non-positive entry at a random row
+fn stop_early(rng: &mut Rng, mut offs: Offsets) -> Offsets {
+    let base = if offs.tail > 0.0 { offs.tail } else { 1.0 };
+    let np = |rng: &mut Rng| *rng.pick(&[0.0f32, -0.0, -1.0, 0.0]) * if rng.chance(1, 2) { 1.0 } else { base };
+    if offs.regular && rng.chance(1, 2) {
+        offs.tail = np(rng);
+        return offs;
+    }
+    let r = rng.range(1, 10) as usize;
+    if offs.regular {
+        offs.regular = false;
+        offs.tab = vec![base; r + 1];
+    }
+    while offs.tab.len() <= r {
+        offs.tab.push(base);
+    }
+    offs.tab[r] = np(rng);
+    offs
+}
+
+/// an earlier call of a Hatcher's history: either entry point, any shape (also curved, also a path
+/// without edges), any options; half of them are ended early by their pattern
+fn gen_hist_call(rng: &mut Rng) -> Call {
+    let dots = rng.chance(1, 2);
+    let mut curved = rng.chance(1, 8);
+    let mut sh = if curved { gen_curved(rng) } else { gen_shape(rng) };
+    if rng.chance(1, 10) {
+        sh = Shape { evs: vec![], kind: "trivial-no-edges", lattice: true };
+        curved = false;
+    }
+    let angle = gen_angle(rng);
+    let uv = gen_uv(rng, &sh);
+    let tol: f32 = if curved { 10f64.powf(rng.uniform(-2.0, 0.0)) as f32 * (extent(&sh.evs) as f32 / 50.0).max(1e-3) } else { 0.1 };
+    let forced_stop = rng.chance(1, 2);
+    let pat = if dots {
+        let mut rows = gen_offsets(rng, &sh, 24.0);
+        if forced_stop {
+            rows = stop_early(rng, rows);
+        }
+        Pattern::Dots { pat: gen_dot_pat_rows(rng, &sh, rows) }
+    } else {
+        let ct = rng.chance(1, 2);
+        let mut offs = gen_offsets(rng, &sh, 40.0);
+        if forced_stop {
+            offs = stop_early(rng, offs);
+        }
+        Pattern::Hatch { ct, offs }
+    };
+    Call { evs: sh.evs, shape: sh.kind, lattice: sh.lattice, curved, angle, uv, tol, pat, forced_stop }
+}
+
+/// the calls the case's Hatcher has served before the case's own call (drawn after all draws of
+/// the case's own input, so that a case id keeps its input)
+fn gen_history(rng: &mut Rng, prelude: bool) -> Vec<Call> {
+    let mut hist = Vec::new();
+    if prelude {
+        hist.push(prelude_call());
+    }
+    if rng.chance(2, 5) {
+        let n = rng.range(1, 3);
+        for _ in 0..n {
+            hist.push(gen_hist_call(rng));
+        }
+    }
+    hist
+}
+
+fn put_history(args: &mut Out, hist: &[Call]) {
+    if hist.is_empty() {
+        return;
+    }
+    args.t("HIST").u(hist.len() as u64);
+    for c in hist {
+        c.put(args);
+    }
+}
+
+fn history_tag(hist: &[Call]) -> String {
+    if hist.is_empty() {
+        return String::new();
+    }
+    let kinds: Vec<String> = hist
+        .iter()
+        .map(|c| format!("{}{}{}", if c.is_dots() { "d" } else { "h" }, if c.forced_stop { "!" } else { "" }, if no_edges(&c.evs) { "0" } else { "" }))
+        .collect();
+    format!(" used hist={} after={}", hist.len(), kinds.join(","))
+}
+
+/// run the history and then the case's call on ONE Hatcher; IMPL = the trace of every call, the
+/// oracle judges every call (a failure names the position of the call in the history)
+fn run_on_one_hatcher(hist: &[Call], main: &Call) -> CaseOut {
+    let mut o = Out::new();
+    let mut orc = Oracle::new();
+    let mut h = Hatcher::new();
+    if !hist.is_empty() {
+        o.t("hist").u(hist.len() as u64);
+    }
+    let n = hist.len() + 1;
+    for (i, c) in hist.iter().chain(std::iter::once(main)).enumerate() {
+        let res = c.run(&mut h);
+        let mut sub = Oracle::new();
+        c.report(&mut o, &mut sub, &res);
+        match sub.verdict {
+            vh::Verdict::Fail { clause, class, detail } => {
+                let served: Vec<&str> = hist[..i.min(hist.len())].iter().map(|c| if c.is_dots() { "dot_path" } else { "hatch_path" }).collect();
+                orc.check(false, &clause, &class, || {
+                    if n == 1 {
+                        detail
+                    } else {
+                        format!("[call {} of {} on one Hatcher, after {:?}] {}", i + 1, n, served, detail)
+                    }
+                });
+            }
+            vh::Verdict::Skip(w) => orc.skip(&w),
+            vh::Verdict::Ok => {}
+        }
+        if res.is_none() {
+            // the model has no state for a Hatcher that unwound in the middle of a call
+            break;
+        }
+    }
+    CaseOut { imp: o, orcl: orc.verdict }
 }
 
 fn put_hatch_items(o: &mut Out, items: &[HItem]) {
@@ -1019,13 +1261,8 @@ fn hatch_case(ctx: &mut Ctx, curved: bool) {
         let offs = gen_offsets(rng, &sh, 40.0);
         let tol: f32 = if curved { 10f64.powf(rng.uniform(-2.0, 0.0)) as f32 * (extent(&sh.evs) as f32 / 50.0).max(1e-3) } else { 0.1 };
         let reuse = rng.chance(1, 4);
-        let mut args = Out::new();
-        args.t(if curved { "H" } else { "h" }).f(angle).p(uv).b(ct);
-        if curved {
-            args.f(tol);
-        }
-        offs.put(&mut args);
-        put_events(&mut args, &sh.evs);
+        // the object's history: everything above is the case's own input (unchanged per case id)
+        let hist = gen_history(rng, reuse);
         let tag = format!(
             "{} {} angle={} {} {}{}",
             if curved { "curves" } else { "hatch" },
@@ -1033,33 +1270,22 @@ fn hatch_case(ctx: &mut Ctx, curved: bool) {
             if angle == 0.0 { "0" } else { "rot" },
             if offs.regular { "regular" } else { "table" },
             if ct { "tangents" } else { "notangents" },
-            if reuse { " reused" } else { "" }
+            history_tag(&hist)
         );
-        (args, tag, move || {
-            let mut o = Out::new();
-            let mut orc = Oracle::new();
-            let res = run_hatch(&sh.evs, angle, uv, ct, tol, &offs, reuse);
-            match &res {
-                None => {
-                    o.t("panic");
-                    empty_check(&mut orc, "hatch_path", &sh.evs, true, 0);
-                }
-                Some(items) => {
-                    put_hatch_items(&mut o, items);
-                    empty_check(&mut orc, "hatch_path", &sh.evs, false, items.len());
-                    let asum: f64 = (0..8).map(|k| (offs.at(k) as f64).abs()).fold(0.0, f64::max);
-                    let fr = frame(&sh.evs, angle, uv, tol, asum);
-                    let exact = sh.lattice && angle == 0.0 && !curved;
-                    hatch_oracle(&mut orc, &fr, items, &offs, well_formed(&sh.evs), exact, "hatch");
-                }
-            }
-            CaseOut { imp: o, orcl: orc.verdict }
-        })
+        let main = Call { evs: sh.evs, shape: sh.kind, lattice: sh.lattice, curved, angle, uv, tol, pat: Pattern::Hatch { ct, offs }, forced_stop: false };
+        let mut args = Out::new();
+        main.put(&mut args);
+        put_history(&mut args, &hist);
+        (args, tag, move || run_on_one_hatcher(&hist, &main))
     });
 }
 
 fn gen_dot_pat(rng: &mut Rng, sh: &Shape) -> DotPat {
     let rows = gen_offsets(rng, sh, 24.0);
+    gen_dot_pat_rows(rng, sh, rows)
+}
+
+fn gen_dot_pat_rows(rng: &mut Rng, sh: &Shape, rows: Offsets) -> DotPat {
     let base = rows.tail.abs().max(if sh.lattice { 0.25 } else { 1e-3 * extent(&sh.evs) as f32 });
     let c = |rng: &mut Rng| if sh.lattice { base * rng.range(1, 6) as f32 * 0.5 } else { base * rng.uniform(0.4, 3.0) as f32 };
     if rows.regular {
@@ -1084,48 +1310,21 @@ fn dots_case(ctx: &mut Ctx, curved: bool) {
         let uv = gen_uv(rng, &sh);
         let pat = gen_dot_pat(rng, &sh);
         let tol: f32 = if curved { 10f64.powf(rng.uniform(-2.0, 0.0)) as f32 * (extent(&sh.evs) as f32 / 50.0).max(1e-3) } else { 0.1 };
-        let mut args = Out::new();
-        args.t(if curved { "D" } else { "d" }).f(angle).p(uv);
-        if curved {
-            args.f(tol);
-        }
-        pat.put(&mut args);
-        put_events(&mut args, &sh.evs);
+        // the object's history: everything above is the case's own input (unchanged per case id)
+        let hist = gen_history(rng, false);
         let tag = format!(
-            "{} {} angle={} {}",
+            "{} {} angle={} {}{}",
             if curved { "curves-dots" } else { "dots" },
             sh.kind,
             if angle == 0.0 { "0" } else { "rot" },
-            if pat.regular { "regular" } else { "table" }
+            if pat.regular { "regular" } else { "table" },
+            history_tag(&hist)
         );
-        (args, tag, move || {
-            let mut o = Out::new();
-            let mut orc = Oracle::new();
-            let res = run_dots(&sh.evs, angle, uv, tol, &pat);
-            match &res {
-                None => {
-                    o.t("panic");
-                    empty_check(&mut orc, "dot_path", &sh.evs, true, 0);
-                }
-                Some(items) => {
-                    put_dot_items(&mut o, items);
-                    empty_check(&mut orc, "dot_path", &sh.evs, false, items.len());
-                    let rows_off = if pat.regular { Offsets { regular: true, tab: vec![], tail: pat.ri } } else { pat.rows.clone() };
-                    let asum: f64 = (0..8).map(|k| (rows_off.at(k) as f64).abs()).fold(0.0, f64::max);
-                    let fr = frame(&sh.evs, angle, uv, tol, asum);
-                    let rerun = || -> Vec<HS> {
-                        // the hatch segments the dots were derived from (same options, tangents off)
-                        run_hatch(&sh.evs, angle, uv, false, tol, &rows_off, false)
-                            .unwrap_or_default()
-                            .into_iter()
-                            .filter_map(|it| if let HItem::Seg(s) = it { Some(s) } else { None })
-                            .collect()
-                    };
-                    dots_oracle(&mut orc, &fr, items, &pat, &rows_off, well_formed(&sh.evs), &rerun);
-                }
-            }
-            CaseOut { imp: o, orcl: orc.verdict }
-        })
+        let main = Call { evs: sh.evs, shape: sh.kind, lattice: sh.lattice, curved, angle, uv, tol, pat: Pattern::Dots { pat }, forced_stop: false };
+        let mut args = Out::new();
+        main.put(&mut args);
+        put_history(&mut args, &hist);
+        (args, tag, move || run_on_one_hatcher(&hist, &main))
     });
 }
 
